@@ -44,8 +44,9 @@ DSKeys == << <<256, 3, 8, <<1, 2, 3>> >>,
 DSTypes == {0, 1, 2, 3, 4, 5, 255}
 DSVector(c) ==
   LET n == Variant(DSOwners[c[1]], c[2])  k == DSKeys[c[4]]
+      text == IF c[2] = 4 THEN PresentDDD(UpperName(DSOwners[c[1]])) ELSE Present(n)
       rd == DNSKEYRdata(k[1], k[2], k[3], k[4]) IN
-  [kind |-> "ds", owner |-> Present(n), flags |-> k[1], proto |-> k[2], alg |-> k[3], key |-> k[4],
+  [kind |-> "ds", owner |-> text, dkey |-> DSDigestKey(DSHash(c[3]), text), flags |-> k[1], proto |-> k[2], alg |-> k[3], key |-> k[4],
    dt |-> c[3], hash |-> DSHash(c[3]), input |-> DSInput(n, rd), tag |-> KeyTag(rd)]
 
 -----------------------------------------------------------------------------
@@ -58,7 +59,9 @@ SaltOf(n) == [i \in 1..n |-> (i * 37 + 11) % 256]
 SaltLens == {0, 1, 8, 255}
 N3Vector(c) ==
   LET n == N3Names[c[1]]  salt == SaltOf(c[2])  k == c[3] IN
-  [kind |-> "nsec3", names |-> << Present(n), Present(UpperName(n)), Present(LowerName(n)), Present(Variant(n, 3)) >>,
+  [kind |-> "nsec3", names |-> << Present(n), Present(UpperName(n)), Present(LowerName(n)), Present(Variant(n, 3)), PresentDDD(UpperName(n)) >>,
+   keys |-> << HashNameKey(Present(n), FALSE), HashNameKey(Present(n), TRUE), HashNameKey(Present(n), TRUE), HashNameKey(Present(n), TRUE),
+               HashNameKey(PresentDDD(UpperName(n)), TRUE) >>,
    salt |-> salt, iter |-> k, plan |-> NSEC3Plan(n, salt, k),
    term |-> IF k <= 10 /\ Len(salt) <= 8 THEN NSEC3Hash(n, salt, k) ELSE <<>>]
 
@@ -97,7 +100,7 @@ ValidityVector(c) ==
 -----------------------------------------------------------------------------
 Init ==
   \/ Mode = "keytag"   /\ v \in KeytagCases(0)
-  \/ Mode = "ds"       /\ v \in (1..Len(DSOwners)) \X (0..3) \X DSTypes \X (1..Len(DSKeys))
+  \/ Mode = "ds"       /\ v \in (1..Len(DSOwners)) \X (0..4) \X DSTypes \X (1..Len(DSKeys))
   \/ Mode = "nsec3"    /\ v \in (1..Len(N3Names)) \X SaltLens \X Iters
   \/ Mode = "cover"    /\ v \in (0..4) \X (0..4) \X (0..4) \X (1..Len(CPairs)) \X {0, 1}
   \/ Mode = "validity" /\ v \in VTs \X {0, 1} \X VOffs \X VOffs
